@@ -57,9 +57,18 @@ def key_prefixes(fn_node: ast.AST, mod=None, cls=None) -> Set[str]:
 
 def handled_prefixes(fn_node: ast.AST, mod=None) -> Set[str]:
     out = set()
+    # prefix literals given a name inside the function (`comp_prefix = "C="`), assigned once
+    local_consts, seen = {}, {}
+    for n in walk_local(fn_node):
+        if isinstance(n, ast.Assign) and len(n.targets) == 1 and isinstance(n.targets[0], ast.Name):
+            seen[n.targets[0].id] = seen.get(n.targets[0].id, 0) + 1
+            if isinstance(n.value, ast.Constant) and isinstance(n.value.value, str):
+                local_consts[n.targets[0].id] = n.value.value
     for n in walk_local(fn_node):
         if isinstance(n, ast.Call) and isinstance(n.func, ast.Attribute) and n.func.attr == "startswith" and n.args:
             v = _strconst(n.args[0], mod)
+            if v is None and isinstance(n.args[0], ast.Name) and seen.get(n.args[0].id) == 1:
+                v = local_consts.get(n.args[0].id)
             if v is not None and PREFIX_RE.match(v):
                 out.add(v)
     return out
@@ -541,7 +550,15 @@ def x10(ctx):
     cfg = ctx.cfg(cf)
     trues = [n for n in cfg.nodes if n.kind == "return" and isinstance(n.ast.value, ast.Constant) and n.ast.value.value is True]
     if not trues:
-        raise AnalysisError("ComponentFilter.match_indexes: `return True` not found")
+        # merged form: `return self._implicitly_defined() or bool(indexes[key])`
+        merged = [n for n in cfg.nodes if n.kind == "return" and isinstance(n.ast.value, ast.BoolOp) and isinstance(n.ast.value.op, ast.Or)
+                  and any(isinstance(v_, ast.Call) and (dotted(v_.func) or "").endswith("_implicitly_defined") for v_ in n.ast.value.values)
+                  and any(isinstance(x_, ast.Subscript) for v_ in n.ast.value.values for x_ in ast.walk(v_))]
+        if not merged:
+            raise AnalysisError("ComponentFilter.match_indexes: `return True` not found")
+        for r in merged:
+            obs.append(ctx.ok(cf.qualname, where(cf, r), "True without presence check only if a child requires the component",
+                              "`%s`" % src(r.ast.value)[:70]))
     for r in trues:
         req = cfg.required_conditions(r)
         ok = any(pol and isinstance(t, ast.Call) and (dotted(t.func) or "").endswith("_implicitly_defined") for t, pol in req)
